@@ -5,7 +5,8 @@ a memory-model property of the code.  The specification contributes
   (1) spec/RaceModel.tla: a design-level happens-before check (vector clocks over the locking / channel discipline of
       every shared location, as read off the code) - TLC checks NoRace for the repaired discipline and finds the
       races of the disciplines the code was found with (rng under the read lock, stream metadata read after a
-      client-side cancel, interceptors editing the stored message) and of three seeded deviations;
+      client-side cancel, interceptors editing the stored message, ONE random source in the package-level default
+      options feeding every instance) and of three seeded deviations;
   (2) spec/RaceGen.tla: the workloads - concurrent programs over the alphabet of spec/RaceOps.tla.
 The code-level oracle is the Go race detector: harness/cmd/racex runs every program free-running in a -race build;
 every report whose stacks contain sc-golang frames is a violation.  spec/RaceTrace.tla checks on what actually ran
@@ -23,7 +24,7 @@ LEVEL = "exploration"
 MOD = "github.com/smart-core-os/sc-golang/"
 GORACE = "halt_on_error=0 exitcode=66 history_size=5 atexit_sleep_ms=0"
 
-REPAIRED = {"RngGuard": '"ownmutex"', "StreamGuard": '"mutex"', "OldMutated": "FALSE", "Mutant": '"none"'}
+REPAIRED = {"RngGuard": '"ownmutex"', "StreamGuard": '"mutex"', "OldMutated": "FALSE", "DefaultShared": '"none"', "Mutant": '"none"'}
 
 
 def consts(n, family, **over):
@@ -35,10 +36,12 @@ def consts(n, family, **over):
 # ----------------------------------------------------------------------------------------------- model checking
 def model_checks(ctx, thorough):
     base = open(os.path.join(vf.SPEC, "RaceMC.cfg")).read()
-    must_hold = [(2, "val", {}), (2, "coll", {}), (2, "coll", {"RngGuard": '"writelock"'}), (2, "bus", {}), (2, "rtr", {}),
-                 (2, "stream", {}), (3, "group", {})]
+    must_hold = [(2, "val", {}), (2, "coll", {}), (2, "bus", {}), (2, "rtr", {}),
+                 (2, "stream", {}), (3, "group", {}),
+                 # two instances built from package-level defaults: nothing shared / an immutable initial message shared
+                 (2, "dflt", {}), (2, "dflt", {"DefaultShared": '"message"'})]
     if thorough:
-        must_hold += [(3, "val", {}), (3, "coll", {}), (3, "bus", {}), (3, "rtr", {})]
+        must_hold += [(2, "coll", {"RngGuard": '"writelock"'}), (3, "val", {}), (3, "coll", {}), (3, "bus", {}), (3, "rtr", {})]
     # disciplines the code was found with, and seeded deviations: NoRace must FAIL, and only where expected
     pinned = [
         ("rng used under the read lock only (collection.go genID, as the code had it)", 2, "coll", {"RngGuard": '"readlock"'}, "OnlyRngRaces"),
@@ -46,6 +49,10 @@ def model_checks(ctx, thorough):
          {"StreamGuard": '"none"'}, "OnlyStreamRaces"),
         ("write interceptor edits the stored message in place (metadatapb merge, parentpb traitUnion/traitRemove, as the code had it)",
          2, "val", {"OldMutated": "TRUE"}, "OnlyMessageRaces"),
+        ("package-level default options hold ONE random source for every instance; each instance generates ids under its "
+         "own lock (electricpb.DefaultModelOptions, as the code had it before 9c6d9aa)", 2, "dflt", {"DefaultShared": '"rng"'}, "OnlyPkgRaces"),
+        ("the initial message held by the package-level defaults is shared by the instances and a write interceptor of one "
+         "instance edits it in place", 2, "dflt", {"DefaultShared": '"message"', "OldMutated": "TRUE"}, "OnlyMessageRaces"),
         ("seeded: Value.Get without RLock", 2, "val", {"Mutant": '"getNoRLock"'}, None),
         ("seeded: Bus.collect without listenerM", 2, "bus", {"Mutant": '"collectNoLock"'}, None),
         ("seeded: router.Has without lock", 2, "rtr", {"Mutant": '"hasNoLock"'}, None),
@@ -55,7 +62,7 @@ def model_checks(ctx, thorough):
         jobs.append(("hold", "repaired discipline", n, fam, over, base))
     for what, n, fam, over, only in pinned:
         jobs.append(("fail", what, n, fam, over, base))
-        if only:
+        if only and (thorough or only in ("OnlyRngRaces", "OnlyPkgRaces")):
             jobs.append(("hold", what + " - nothing else races", n, fam, over, base.replace("NoRace", only)))
 
     def one(job):
@@ -217,8 +224,8 @@ def run(ctx):
     thorough = ctx.tier == "thorough"
     model_checks(ctx, thorough)
 
-    ncases = 3900 if thorough else 364
-    iters = 120 if thorough else 60
+    ncases = 4800 if thorough else 480
+    iters = 100 if thorough else 20
     shards = 8 if thorough else 4
     budget_ms = 560_000 if thorough else 60_000
     progs = gen(ctx, ncases)
@@ -278,13 +285,15 @@ def run(ctx):
     good = [o for o in obs if o["n"] not in badn]
     for o in good:
         ctx.count(o["iters"])
-        ctx.distinct(o["procs"])
+        ctx.distinct((o["procs"], o["inst"], o["on"]))
     ctx.cov["traces_validated_against_impl"] += len(good)
     ctx.cov["programs_generated_by_tlc"] = len(progs)
     ctx.cov["programs_run"] = len(obs)
     ctx.cov["race_reports"] = nreports
     ctx.cov["operations_completed"] = sum(sum(o["done"]) for o in obs)
     ctx.cov["events_read_by_consumers"] = sum(o["events"] for o in obs)
+    multi = [l for l in tr.out.splitlines() if l.startswith('"MULTI ')]
+    ctx.cov["programs_with_2_or_3_instances_from_package_defaults"] = int(multi[0].strip('"').split()[1]) if multi else 0
     cover = tr.cases("COVER ")
     ctx.cov["model_disciplines_exercised"] = sorted(cover[0]) if cover else []
     kinds = {}
@@ -297,14 +306,19 @@ def run(ctx):
         # not C11's business (no race involved), but worth knowing
         ctx.cov["notes"].append({"operations_that_panicked_under_contention": panics[:6]})
     for o in good[:2] + good[len(good) // 2: len(good) // 2 + 1]:
-        ctx.sample({k: o[k] for k in ("n", "family", "procs", "iters", "ops", "errs", "events")})
+        ctx.sample({k: o[k] for k in ("n", "family", "inst", "on", "procs", "iters", "ops", "errs", "events")})
     ctx.cov["rule"] = ("TLC (RaceGen.tla) draws programs of 4-16 processes, each 1-4 operation kinds of one family of the "
                        "alphabet in RaceOps.tla (Value, Collection, Bus, Router, wrapped clients with header/trailer and "
-                       "streams, group strategies, electric/parent/metadata/hail/booking/publication models, mixed), "
+                       "streams, group strategies, electric/parent/metadata/hail/booking/publication models, mixed, "
+                       "16 more trait models constructed from their package default options only, package-level helpers and "
+                       "variables, InfoServer); two programs in three have 2-3 instances of every type (instances 2 and 3 built "
+                       "with no options, so they share whatever the package-level defaults hold) with every process on one "
+                       "instance, "
                        "with interceptors/callbacks/consumers that read everything they are given; each program runs "
                        "%d times free-running under the race detector (evaluations = programs x iterations); "
                        "non-trivial = RaceTrace.tla confirms on what ran that all operations completed and two different "
-                       "processes had operations on one object, one of them writing; distinct = distinct programs" % iters)
+                       "processes had operations on one object, one of them writing (several instances: two processes on "
+                       "different instances of one type); distinct = distinct programs" % iters)
     not_run = len(progs) - len(obs) - len(crashed - {o["n"] for o in obs})
     if not_run > 0:
         ctx.cov["notes"].append({"programs_not_run_budget_reached": not_run})
@@ -331,8 +345,10 @@ MANIFEST = {
             "callbacks and consumers) with vector clocks as auxiliary variables; TLC checks NoRace over all interleavings "
             "of 2-3 processes for the repaired discipline and shows the race for the disciplines the code was found with "
             "(rng under the read lock, stream metadata after a client-side cancel, interceptors editing the stored "
-            "message) and for three seeded deviations. RaceGen.tla draws programs of 4-16 processes over an alphabet of "
-            "~90 operation kinds; cmd/racex runs them with no harness synchronisation after the common start; reports are "
+            "message, a package-level default random source shared by two instances that each lock only themselves) and "
+            "for three seeded deviations. RaceGen.tla draws programs of 4-16 processes over an alphabet of ~150 operation "
+            "kinds; two programs in three have 2-3 instances of every type built from the package default options and "
+            "used by different goroutines at once (package-level defaults are shared state); cmd/racex runs them with no harness synchronisation after the common start; reports are "
             "de-duplicated by the pair of innermost sc-golang frames. RaceTrace.tla rejects vacuous programs.",
     "note": "Trusted base: the Go race detector (it only sees races that happen in the runs; no report is not a proof), "
             "TLC, the table in RaceOps.tla (which object an operation touches). Harness callbacks never write shared "
